@@ -776,7 +776,8 @@ func init() {
 		it := e.makeIter(ref, nil).(Iface)
 		d := it.Val.(Opaque).Data.(*iterData)
 		rev := args[2].(*smt.Term)
-		if e.branch(rev) {
+		isRev := e.branch(rev)
+		if isRev {
 			for i, j := 0, len(d.entries)-1; i < j; i, j = i+1, j-1 {
 				d.entries[i], d.entries[j] = d.entries[j], d.entries[i]
 			}
@@ -796,6 +797,12 @@ func init() {
 			}
 			if at < 0 {
 				panic(engineErr("key-based pagination with a key that is not the key of an existing entry (seek between keys needs the lexicographic order: not modelled)"))
+			}
+			if at == 0 && isRev {
+				// cosmos-sdk v0.47.12 getIterator, reverse with a start key: it opens a forward iterator
+				// at the key, steps once and reads Key() to find the exclusive end - when the key is the
+				// last one of the listing the iterator is exhausted and the prefix store's Key() panics
+				e.goPanicf("prefixIterator invalid, cannot call Key()")
 			}
 			d.entries = d.entries[at:]
 		}
